@@ -270,6 +270,59 @@ fn exact_rate(r: u32) -> bool {
 	r as f64 * (1.0 / r as f64) == 1.0
 }
 
+/// The same sound played on the main track of a real manager (internal buffer `ibs`, the case's
+/// chunk sizes as callback sizes) and driven directly: the mixer adds nothing and loses nothing -
+/// bit for bit, including the silence after the sound has ended.
+fn through_the_manager(c: &Case, ibs: usize) -> Result<(), Failure> {
+	let (a, b) = c.slice.unwrap_or((0, c.total_len));
+	let (a, b) = (a.min(c.total_len), b.min(c.total_len));
+	let n = b.saturating_sub(a);
+	let mut frames = vec![Frame::from_mono(POISON); c.total_len];
+	for i in 0..n {
+		frames[a + i] = code(i, c.ramp, n);
+	}
+	let frames: Arc<[Frame]> = Arc::from(frames);
+	let data = || StaticSoundData {
+		sample_rate: c.sound_rate,
+		frames: frames.clone(),
+		settings: StaticSoundSettings::new().start_position(PlaybackPosition::Samples(c.start)).loop_region(region(c.loop_region)).reverse(c.reverse).playback_rate(PlaybackRate(c.rate)),
+		slice: c.slice,
+	};
+	let mut mgr = crate::probes::default_manager(c.device_rate, ibs);
+	let _h = mgr.play(data()).map_err(|_| Failure::simple("setup", "play"))?;
+	let (mut sound, _h2) = data().into_sound().map_err(|_| Failure::simple("setup", "into_sound"))?;
+	let info = MockInfoBuilder::new().build();
+	let dt = 1.0 / c.device_rate as f64;
+	let mut t = 0usize;
+	for (ci, len) in c.chunks.iter().enumerate() {
+		let len = (*len).max(1);
+		let cb = mgr.backend_mut().callback(len, 2);
+		if let Some(p) = &cb.guard.panic {
+			return Err(Failure::panic("", p));
+		}
+		let mut direct = vec![Frame::ZERO; len];
+		sound.on_start_processing();
+		let mut i = 0;
+		while i < len {
+			let k = ibs.min(len - i);
+			if !sound.finished() {
+				sound.process(&mut direct[i..i + k], dt, &info);
+			}
+			i += k;
+		}
+		for i in 0..len {
+			let (l, r) = cb.frame(i, 2);
+			let want = (direct[i].left.clamp(-1.0, 1.0), direct[i].right.clamp(-1.0, 1.0));
+			if (l, r) != want && !(l == want.0 && r == want.1) {
+				let sig = "mixer-passes-a-single-sound-unchanged";
+				return Err(Failure::new(sig, sig, format!("output frame {} (callback {ci}, frame {i} of {len}, internal buffer {ibs}): the manager renders ({l}, {r}), the sound driven directly gives {want:?}; case {c:?}", t + i)));
+			}
+		}
+		t += len;
+	}
+	Ok(())
+}
+
 fn run_case(c: &Case) -> Result<(bool, bool, bool), Failure> {
 	// source buffer: poison outside the slice
 	let (a, b) = c.slice.unwrap_or((0, c.total_len));
@@ -571,7 +624,7 @@ impl Property for C04 {
 		"C04"
 	}
 	fn rule(&self) -> &'static str {
-		"each case plays one StaticSoundData (index-coded frames, frames outside the slice poisoned with 777.0) as a Box<dyn Sound> with MockInfoBuilder, chunk by chunk, next to an independent reference player. Exact mode (rate +-1, device rate == sound rate, rates R with R*(1/R)==1.0): output must equal the reference bit-for-bit, including the first frame (no latency), loop wraps, reverse, the end (exact zeros) and Stopped reported exactly when the reference has ended. Other rates / rate pairs / zero-duration rate changes: |out - f64 Hermite reference| <= 1e-5. seek_to / seek_by / set_loop_region at arbitrary chunk boundaries; position() must name the heard frame within one frame; seeks must land within one frame once the 4-frame window has refilled. Enumeration: all small cases (length <= 6 quick / <= 9 thorough) x slice x start x loop region x reverse x rate sign. Non-trivial = crosses a loop end, reaches the end of data, or contains a seek; distinct = distinct decoded choices."
+		"each case plays one StaticSoundData (index-coded frames, frames outside the slice poisoned with 777.0) as a Box<dyn Sound> with MockInfoBuilder, chunk by chunk, next to an independent reference player. Exact mode (rate +-1, device rate == sound rate, rates R with R*(1/R)==1.0): output must equal the reference bit-for-bit, including the first frame (no latency), loop wraps, reverse, the end (exact zeros) and Stopped reported exactly when the reference has ended. Other rates / rate pairs / zero-duration rate changes: |out - f64 Hermite reference| <= 1e-5. seek_to / seek_by / set_loop_region at arbitrary chunk boundaries; position() must name the heard frame within one frame; seeks must land within one frame once the 4-frame window has refilled. A third of the command-free cases are also played on the main track of a real manager (internal buffer 1..128, the case's chunk sizes as callback sizes) and must come out bit for bit as when driven directly, including the silence after the end. Enumeration: all small cases (length <= 6 quick / <= 9 thorough) x slice x start x loop region x reverse x rate sign. Non-trivial = crosses a loop end, reaches the end of data, or contains a seek; distinct = distinct decoded choices."
 	}
 	fn assumptions(&self) -> Vec<String> {
 		vec![
@@ -652,6 +705,11 @@ impl Property for C04 {
 		ctx.describe(|| format!("{case:?}"));
 		let (crossed_loop, reached_end, had_seek) = run_case(&case)?;
 		let mut classes = vec![if case.exact { "exact" } else { "resampled" }];
+		if case.cmds.is_empty() && src.chance(1, 3) {
+			let ibs = src.pick(&[16usize, 1, 3, 64, 128]);
+			through_the_manager(&case, ibs)?;
+			classes.push("through-the-manager");
+		}
 		if crossed_loop {
 			classes.push("crossed-loop");
 		}
